@@ -261,7 +261,7 @@ def rule_dup(R):
         pcalls = [c.bb for c in rb.calls.values() if c.bb in rb.reachable and any(t in pnames for t in f.call_targets(c))]
         cen = outq.census(f)
         stores = [bb for (b, bb, field, val, span) in cen["retained"]["elem_stores"]
-                  if b.name == name and field == "state" and outq.is_write0(val)]
+                  if b.name == name and field == "state" and (outq.is_write0(val) or outq.helper_write0(f, val))]
         ok = bool(pcalls) and bool(stores)
         if ok:
             for sb in stores:
